@@ -261,6 +261,8 @@ func enumV3(s *SS, ver *spec.Version, plan strPlan) {
 	r := s.R
 	nm := len(ver.Metrics)
 	// (a) every subset of the 22 metrics in canonical order, values rotating with the subset
+	vjunk3 := valueJunk(ver)
+	tokens3 := append(allLegalElems(), junkTokens(ver)...)
 	total := 1 << nm
 	chunk := 1 << 12
 	Parallel(total/chunk, 16, func(ci int) {
@@ -289,7 +291,12 @@ func enumV3(s *SS, ver *spec.Version, plan strPlan) {
 				sb.WriteByte(':')
 				sb.WriteString(m.Values[(set+i)%len(m.Values)])
 			}
-			s.Eval(sb.String())
+			str := sb.String()
+			s.Eval(str)
+			if set != 0 {
+				s.Eval(corruptElem(str, len(ver.Header), set, vjunk3))
+				s.Eval(str + "/" + tokens3[set%len(tokens3)])
+			}
 		}
 	})
 	// (b) all 8! orders of the base-only vector
@@ -346,6 +353,7 @@ func enumV4(s *SS, plan strPlan) {
 	nb := ver.NumBase()
 	nopt := len(ver.Metrics) - nb
 	tokens := append(allLegalElems(), junkTokens(ver)...)
+	vjunk := valueJunk(ver)
 	total := 1 << nopt
 	chunk := 1 << 10
 	Parallel(total/chunk, 16, func(ci int) {
@@ -393,8 +401,28 @@ func enumV4(s *SS, plan strPlan) {
 					s.Eval(str[:c] + "/" + t + str[c:])
 				}
 			}
+			// state x corrupted element: one rotating element of this very vector gets a junk value, and one is deleted
+			s.Eval(corruptElem(str, len(ver.Header)+1, set, vjunk))
+			s.Eval(dropElem(str, len(ver.Header)+1, set/3))
 		}
 	})
+}
+
+// corruptElem replaces the value of the k-th "/"-separated element of str[from:] by a junk value.
+func corruptElem(str string, from, k int, junk []string) string {
+	parts := strings.Split(str[from:], "/")
+	i := k % len(parts)
+	abv, _, _ := strings.Cut(parts[i], ":")
+	parts[i] = abv + ":" + junk[(k/len(parts))%len(junk)]
+	return str[:from] + strings.Join(parts, "/")
+}
+
+// dropElem deletes the k-th element.
+func dropElem(str string, from, k int) string {
+	parts := strings.Split(str[from:], "/")
+	i := k % len(parts)
+	parts = append(parts[:i:i], parts[i+1:]...)
+	return str[:from] + strings.Join(parts, "/")
 }
 
 func strRule(what string) string {
